@@ -21,15 +21,22 @@ package cstate
 // the state's last block id and the height just below the block; the median time is taken over that
 // same set.
 //@ func validateBlock(evidencePool EvidencePool, store Store, state LatestBlockState, block *types.Block) (err error)
-//@   for C03 C01
+//@   for C03 C01 C13
 //@   requires block != nil
 //@   modifies *
 //@   opt assumecallreqs
+//@   atcall Block.ValidateBasic requires [txRootAlwaysChecked] hasher != nil
 //@   atcall ValidatorSet.VerifyCommit requires [lastCommitAgainstPreviousSet] vs == state.LastValidators && chainID == state.ChainID && blockID == state.LastBlockID
 //@   atcall MedianTime requires [medianOverPreviousSet] validators == state.LastValidators
 
-// ValidateBlock consults and fills the executor's validation cache; it does not write consensus state.
-//@ trusted func (blockExec *BlockExecutor) ValidateBlock(state LatestBlockState, block *types.Block) (err error)
+// ValidateBlock consults and fills the executor's validation cache. A block enters the cache only after
+// validateBlock accepted it: validation runs while the block is not yet cached.
+//@ func (blockExec *BlockExecutor) ValidateBlock(state LatestBlockState, block *types.Block) (err error)
+//@   for C03 C01
+//@   requires blockExec != nil && block != nil
+//@   modifies *
+//@   opt assumecallreqs
+//@   atcall validateBlock requires [validatedBeforeCached] !has(blockExec.cache, hash)
 
 // ---------------------------------------------------------------- C12: the next set is rotated AFTER the change set was applied
 //@ func updateState(logger log.Logger, state LatestBlockState, blockID types.BlockID, header *types.Header, validatorUpdates []*types.Validator) (r LatestBlockState, err error)
@@ -83,3 +90,11 @@ package cstate
 //@   modifies *
 //@   ensures [nextSetStored] forall i int :: 0 <= i && i < len(state.NextValidators.Validators) ==> kaidb.KeyValueWriter(batch).vprio[rawdb.recKey(types.valsKey(state.NextValidators))][i] == state.NextValidators.Validators[i].ProposerPriority
 //@   ensures [currentSetSurvivesSave] forall i int :: 0 <= i && i < len(state.Validators.Validators) ==> kaidb.KeyValueWriter(batch).vprio[rawdb.recKey(types.valsKey(state.Validators))][i] == state.Validators.Validators[i].ProposerPriority
+
+// ---------------------------------------------------------------- C12: the change set is computed against the set it is applied to
+//@ func (blockExec *BlockExecutor) ApplyBlock(state LatestBlockState, blockID types.BlockID, block *types.Block) (r LatestBlockState, h uint64, err error)
+//@   for C12
+//@   requires blockExec != nil && block != nil
+//@   modifies *
+//@   opt assumecallreqs
+//@   atcall calculateValidatorSetUpdates requires [diffedAgainstTheNextSet] state.NextValidators != nil && lastVals == state.NextValidators.Validators
